@@ -5,7 +5,7 @@ import ast
 from .. import AnalysisError
 from ..callgraph import LOCK_WRAPPERS
 from ..cfg import ALL_KINDS, NORMAL_KINDS, iter_own
-from ..lib import always_followed_by, dominated_by, guard_forms, inline_locals, iteration_paths, key_of, only_return, render, unlocked_writers
+from ..lib import always_followed_by, dominated_by, guard_forms, inline_locals, inlined_expr, iteration_paths, key_of, only_return, render, unlocked_writers
 from ..report import describe, rule
 
 P = "C08"
@@ -415,7 +415,9 @@ def c08_6(ctx, r):
     pr = ctx.fn(f"{RA}._process_results", "C08.6")
     okn = any(isinstance(n, ast.Assert) and ctx.src(n.test) == "not self._is_node" for f2 in (ctx.fn(f"{RA}.process_results"), ctx.fn(f"{RA}._get_node_results_files")) for n in iter_own(f2.node))
     r.check(okn, "the outer hold is the consolidated file's (asserted not a node file)", key_of(pr, "outer is consolidated"), pr.loc(), "collection is no longer asserted to run on the consolidated aggregator")
-    inner = [n for n in iter_own(pr.node) if isinstance(n, ast.Assign) and isinstance(n.value, ast.Call) and "load_node_results_file" in ctx.src(n.value)]
+    # the receiver of move_results(...) is load_node_results_file(path) - bound to a local or written in place
+    inner = [c for c in iter_own(pr.node) if isinstance(c, ast.Call) and isinstance(c.func, ast.Attribute) and c.func.attr == "move_results"
+             and "load_node_results_file" in ctx.src(inlined_expr(ctx, pr, c.func.value))]
     r.check(bool(inner), "the inner hold is a node file's (load_node_results_file(path))", key_of(pr, "inner is node"), pr.loc(), "the inner aggregator is not built from a node results file")
     if not nests:
         r.bad(key_of(pr, "collection without node lock"), pr.loc(), "_process_results no longer acquires the node file's lock while moving its rows: an append racing with read-append-delete is lost", "No row is lost")
